@@ -30,6 +30,14 @@ Clauses ==
               \/ T.eqs[i].eq # (T.eqs[i].m = T.tree)
               \/ T.eqs[i].jeq # (JsonDoc(T.eqs[i].m) = JsonDoc(T.tree)) THEN {"eq"} ELSE {})
   \cup (IF Has("failed") /\ T.failed # <<>> THEN {"raised"} ELSE {})
+  \* beyond the listed properties: the rest of the Node / query API
+  \cup (IF Has("orig") /\ T.orig # Originals(T.tree) THEN {"api.original"} ELSE {})
+  \cup (IF Has("shiftOne") /\ (T.shiftOne # ShiftFirst(T.tree, T.shiftK) \/ T.shiftAll # ShiftAll(T.tree, T.shiftK) \/ ~T.shiftSame)
+        THEN {"api.shift"} ELSE {})
+  \cup (IF Has("invert") /\ T.invert # InvertPaths(T.tree) THEN {"api.invert"} ELSE {})
+  \cup (IF Has("obfcounts") /\ {<<T.obfcounts[i][1], T.obfcounts[i][2]>> : i \in 1..Len(T.obfcounts)} # ObfCountsAsCoded(T.tree.kids)
+        THEN {"api.obfcounts"} ELSE {})
+  \cup (IF Has("obfcounts") /\ ObfCountsAsCoded(T.tree.kids) # ObfCountsIntended(T.tree.kids) THEN {"note.obfcounts.percharacter"} ELSE {})
 
 Init == tid \in 1..Len(Traces) /\ judged = FALSE
 Judge == /\ ~judged
